@@ -236,6 +236,26 @@ example : NetcodeServer.processPacket AEAD.toy srv pendAddr junkRequest =
   server_invalid_request_noop AEAD.toy srv pendAddr junkRequest rfl junk_read (by decide +kernel) (by decide +kernel)
     (Or.inl (by decide))
 
+/-- The counter hypothesis of `server_process_packet_total` is needed: with `global_sequence = u64::MAX` a valid
+    connection request makes `global_sequence += 1` overflow (a panic in the debug profile; unreachable in practice:
+    2^63 datagrams after start). -/
+def okOr {ε α : Type} (d : α) : Res ε α → α
+  | .ok a => a
+  | _ => d
+def emptyTok : ConnectToken :=
+  { clientId := 0, versionInfo := [], protocolId := 0, createTimestamp := 0, expireTimestamp := 0, xnonce := [],
+    serverAddresses := [], clientToServerKey := [], serverToClientKey := [], privateData := [], timeoutSeconds := 0 }
+def goodTok : ConnectToken := okOr emptyTok
+  (ConnectToken.generate AEAD.toy 0 42 30 79 15 [.v4 [127, 0, 0, 1] 5000] (List.replicate 256 9) (List.replicate 32 3)
+    (List.replicate 32 4) (List.replicate 24 5) (List.replicate 32 1))
+def goodRequest : Bytes := okOr [] (encode AEAD.toy
+  (.connectionRequest Netcode.C.NETCODE_VERSION_INFO goodTok.protocolId goodTok.expireTimestamp goodTok.xnonce
+    goodTok.privateData) 1400 42 none)
+theorem counter_overflow_panics :
+    (NetcodeServer.processPacket AEAD.toy { srv with globalSequence := 2 ^ 64 - 1 } otherAddr goodRequest).isPanic = true := by
+  decide +kernel
+example : (NetcodeServer.processPacket AEAD.toy srv otherAddr goodRequest).isPanic = false := by decide +kernel
+
 /-! a client in its first state -/
 def tok : ConnectToken :=
   { clientId := 77, versionInfo := Netcode.C.NETCODE_VERSION_INFO, protocolId := 42, createTimestamp := 0,
